@@ -83,6 +83,33 @@ Proof.
   unfold synced, half_wf, cipher_match. cbn. rewrite <- Hm, Hmac. repeat split; auto; try discriminate.
 Qed.
 
+(* ... and so does any number of generations: after n key updates in one direction (whoever started them,
+   whatever update_requested said) writer and reader hold the n-th secret, its key and IV, sequence 0 *)
+Fixpoint ratchet_n (P : prims) (suite : N) (n : nat) (h : half) : half :=
+  match n with
+  | O => h
+  | S k => ratchet_n P suite k (set_traffic_secret P h suite (next_secret P suite (h_secret h)))
+  end.
+
+Theorem C25_key_update_generations : forall P (suite : N) (n : nat) (tx rx : half),
+  synced tx rx -> h_mac tx = None -> synced (ratchet_n P suite n tx) (ratchet_n P suite n rx).
+Proof.
+  intros P suite n. induction n as [|k IH]; intros tx rx Hs Hm; [exact Hs|].
+  cbn [ratchet_n]. apply IH.
+  - apply C25_key_update_keeps_sync; assumption.
+  - unfold set_traffic_secret. destruct (traffic_key P suite (next_secret P suite (h_secret tx))). exact Hm.
+Qed.
+
+(* the generations differ from each other only through next_secret: generation n holds next_secret^n *)
+Theorem C25_generation_secret : forall P (suite : N) (n : nat) (h : half),
+  h_secret (ratchet_n P suite n h) = Nat.iter n (next_secret P suite) (h_secret h).
+Proof.
+  intros P suite n. induction n as [|k IH]; intros h; [reflexivity|].
+  cbn [ratchet_n]. rewrite IH. unfold set_traffic_secret.
+  destruct (traffic_key P suite (next_secret P suite (h_secret h))). cbn [h_secret].
+  clear IH. induction k as [|j IHj]; [reflexivity|]. simpl. simpl in IHj. rewrite IHj. reflexivity.
+Qed.
+
 (* tamper_detected (AEAD suites; IDEAL premise: Open only accepts what a key holder sealed): the receiver
    accepts a record only if the triple (nonce of ITS sequence number, additional data carrying sequence
    number / type / version / length — in TLS 1.3 the whole header —, entire body) was sealed. A record with a
